@@ -1,6 +1,7 @@
 //! vnet: sync-level monitors (C04 C05 C09 C11 C17, sync parts of C02 C03 C07 C08 C20).
 mod c03;
 mod c04;
+mod c07patch;
 mod c08scan;
 mod c09;
 mod c11;
@@ -25,6 +26,7 @@ fn main() {
         "c05" => rt.block_on(c04::run(&args, &mut rep, "C05")),
         "c02sync" => rt.block_on(c04::run(&args, &mut rep, "C02")),
         "c20sync" => rt.block_on(c04::run(&args, &mut rep, "C20")),
+        "c07patch" => rt.block_on(c07patch::run(&args, &mut rep)),
         "c08scan" => rt.block_on(c08scan::run(&args, &mut rep)),
         "c09" => rt.block_on(c09::run(&args, &mut rep)),
         "c11" => rt.block_on(c11::run(&args, &mut rep)),
